@@ -55,12 +55,15 @@ def check(chk):
     # ---- per-iteration state is re-initialised in its loop
     chk.rule('C26.scope', 'in NetworkTopologyStrategy the only state carried from one token / one datacenter to the next is the result map and the per-DC ring cursor; every other accumulator is initialised inside the loop that consumes it')
     ntsf = meta.func('NetworkTopologyStrategy.make_token_replica_map')
-    ALLOWED = {'i': set(['replica_map', 'dc_to_current_index']),            # result; documented cursor "advancing around the ring for each DC"
+    ALLOWED = {'token': set(['replica_map', 'dc_to_current_index']),            # result; documented cursor "advancing around the ring for each DC"
                'dc': set(['replicas', 'dc_to_current_index', 'replica_map'])}  # replicas = this token's result list, shared by the DCs on purpose
     nloops = 0
-    for lp in [n for n in body_walk(ntsf) if isinstance(n, ast.For) and src(n.target) in ALLOWED and (src(n.target) != 'i' or 'len(ring)' in src(n.iter))]:
-        if src(lp.target) == 'dc' and 'dc_to_token_offset' not in src(lp.iter):
-            continue
+    # the loop over the ring (by index, by enumerate or by element) and, inside it, the loop over the datacenters that own tokens
+    dc_loops = [n for n in body_walk(ntsf) if isinstance(n, ast.For) and 'dc_to_token_offset' in src(n.iter)]
+    tok_loops = [n for n in body_walk(ntsf) if isinstance(n, ast.For) and any(isinstance(x, ast.Name) and x.id == 'ring' for x in ast.walk(n.iter))
+                 and any(d is x for d in dc_loops for x in ast.walk(n))]
+    dc_loops = [d for d in dc_loops if any(d is x for t in tok_loops for x in ast.walk(t))]
+    for lp, kind_ in [(t, 'token') for t in tok_loops] + [(d, 'dc') for d in dc_loops]:
         nloops += 1
         mutated = {}
         local = set()
@@ -76,7 +79,9 @@ def check(chk):
                 for e in ast.walk(x.target):
                     if isinstance(e, ast.Name):
                         local.add(e.id)
-        local.add(src(lp.target))
+        for e in ast.walk(lp.target):
+            if isinstance(e, ast.Name):
+                local.add(e.id)
         for x in ast.walk(lp):
             if isinstance(x, ast.AugAssign) and isinstance(x.target, ast.Name):
                 mutated.setdefault(x.target.id, x)
@@ -86,10 +91,10 @@ def check(chk):
                 for t in (x.targets if isinstance(x, (ast.Assign, ast.Delete)) else []):
                     if isinstance(t, ast.Subscript) and isinstance(t.value, ast.Name):
                         mutated.setdefault(t.value.id, x)
-        carried = sorted(n for n in mutated if n not in local and n not in ALLOWED[src(lp.target)])
-        chk.judge(not carried, 'C26.scope', lp, 'loop over %s: accumulators %s are initialised in the loop body; carried on purpose: %s' % (src(lp.target), sorted(n for n in mutated if n in local), sorted(n for n in mutated if n in ALLOWED[src(lp.target)])),
+        carried = sorted(n for n in mutated if n not in local and n not in ALLOWED[kind_])
+        chk.judge(not carried, 'C26.scope', lp, 'loop over the %ss: accumulators %s are initialised in the loop body; carried on purpose: %s' % ('datacenter' if kind_ == 'dc' else 'token', sorted(n for n in mutated if n in local), sorted(n for n in mutated if n in ALLOWED[kind_])),
                   'the accumulator %s is modified inside the per-%s loop but initialised outside it: what one %s left in it leaks into the next (hosts skipped for one datacenter are placed as replicas of another)'
-                  % (carried, 'datacenter' if src(lp.target) == 'dc' else 'token', 'datacenter' if src(lp.target) == 'dc' else 'token'))
+                  % (carried, 'datacenter' if kind_ == 'dc' else 'token', 'datacenter' if kind_ == 'dc' else 'token'))
     if nloops != 2:
         raise AnalysisError('NetworkTopologyStrategy.make_token_replica_map: token loop / datacenter loop not recognised (%d)' % nloops)
     ss = meta.func('SimpleStrategy.make_token_replica_map')
